@@ -62,9 +62,9 @@ def branchOf (s : St) (op : Op) (r : Res) : String :=
 
 def parseClsRow (j : Json) : Except String ClsRow := do
   let a ← j.getArr?
-  if a.size != 7 then throw "class row: 7 fields expected"
+  if a.size != 8 then throw "class row: 8 fields expected"
   return { listed := ← a[0]!.getBool?, pid := optNat a[1]!, static := optNat a[2]!, pdefault := optInt a[3]!,
-           attr := optInt a[4]!, value := optInt a[5]!, ser := optInt a[6]! }
+           attr := optInt a[4]!, value := optInt a[5]!, ser := optInt a[6]!, attrpid := optNat a[7]! }
 
 def parseInstRow (j : Json) : Except String InstRow := do
   let a ← j.getArr?
@@ -82,7 +82,7 @@ def parseStepObs (j : Json) : Except String StepObs := do
 
 def jClsRow (r : ClsRow) : Json :=
   Json.arr #[Json.bool r.listed, jOptNat r.pid, jOptNat r.static, jOptInt r.pdefault, jOptInt r.attr,
-             jOptInt r.value, jOptInt r.ser]
+             jOptInt r.value, jOptInt r.ser, jOptNat r.attrpid]
 def jInstRow (r : InstRow) : Json :=
   Json.arr #[Json.bool r.listed, jOptNat r.pid, jOptNat r.gov, jOptInt r.attr, jOptInt r.value, jOptInt r.ser]
 def jStepObs (o : StepObs) : Json := Json.mkObj [
